@@ -28,6 +28,14 @@ Theorem C17_edits_visible_partial : forall fuel cfg h, arity_bug cfg = false -> 
 Proof. exact edits_visible. Qed.
 Print Assumptions C17_edits_visible_partial.
 
+(* Two live engines: whatever a second engine is configured with, whenever it is constructed, re-constructed with
+   other settings or used, the renders of the first engine are those of its own history (engines share the
+   file system and nothing else - no per-engine setting lives in a class or module) *)
+Theorem C17_engines_independent : forall fuel cfgA h cfgB st cacheB,
+  run2 fuel cfgA cfgB st cacheB h = run fuel cfgA st (only_A h).
+Proof. exact engines_independent. Qed.
+Print Assumptions C17_engines_independent.
+
 (* a fresh engine renders the cache-free specification after ANY history, in every configuration *)
 Theorem C17_fresh_is_spec : forall fuel cfg h, arity_bug cfg = false ->
   run_fresh fuel cfg est0 h = run_spec fuel cfg est0 h.
